@@ -1,13 +1,15 @@
 """Print the prompt for a seeding sub-agent: tools/seed_prompt.py C02 /tmp/wt_C02"""
 import json, sys
 pid, wt = sys.argv[1], sys.argv[2]
+used = sys.argv[3] if len(sys.argv) > 3 else ""   # one-line descriptions of changes already collected for this property
+outdir = sys.argv[4] if len(sys.argv) > 4 else f"/tmp/seed_{pid}"
 for l in open('/verif/properties.jsonl'):
     p = json.loads(l)
     if p['id'] == pid:
         break
 print(f"""You are helping to evaluate how well a set of (hidden) checkers protects a Python code base. Your job: introduce ONE realistic, subtle defect.
 
-Code base: a git worktree of pasqal-io/emulators at {wt} (packages emu_base, emu_mps, emu_sv; tests under test/). Work ONLY inside {wt} (and /tmp/seed_{pid} for your outputs). Never touch /repo or /verif. Run Python with /venv/bin/python, from inside {wt} (so that the worktree's packages are imported: check with `/venv/bin/python -c "import emu_mps; print(emu_mps.__file__)"` run from {wt} — it must print a path under {wt}; if it does not, use `PYTHONPATH={wt}`).
+Code base: a git worktree of pasqal-io/emulators at {wt} (packages emu_base, emu_mps, emu_sv; tests under test/). Work ONLY inside {wt} (and {outdir} for your outputs). Never touch /repo or /verif, and do not look into other /tmp/seed_* or /tmp/wt_* directories. Run Python with /venv/bin/python, from inside {wt} (so that the worktree's packages are imported: check with `/venv/bin/python -c "import emu_mps; print(emu_mps.__file__)"` run from {wt} — it must print a path under {wt}; if it does not, use `PYTHONPATH={wt}`).
 
 The property your change must break:
   id: {p['id']}
@@ -21,13 +23,14 @@ What to produce: a change to the library source (not the tests) that
   (c) needs something specific to manifest — an unusual but legitimate input, a particular configuration combination, a multi-step sequence of operations, a crash at a particular point, or two cooperating sites that each look fine alone — NOT something every ordinary use would expose at once,
   (d) looks like a plausible mistake or well-meant refactoring/optimisation a maintainer could make (no comments announcing it, no dead giveaway names).
 Prefer a small diff (1–15 lines). One defect only.
+{("Changes of the following kind have ALREADY been collected for this property — produce something different in mechanism and location: " + used) if used else ""}
 
 Facts about this sandbox you need:
-  * The installed pulser-core is 1.9.1 and the code base targets 1.8, so every test that constructs a backend end-to-end fails ALREADY before your change (Observable.__init__ needs `default_aggregation_method`). Baseline: from {wt} run `OMP_NUM_THREADS=2 MKL_NUM_THREADS=2 /venv/bin/python -m pytest -q -p no:cacheprovider --timeout=1800 --continue-on-collection-errors -n 3 -rf 2>&1 | tail -80` (10-25 minutes; the machine is shared, keep to -n 3 and the two *_NUM_THREADS=2 settings for every Python process you start; if `test_differentiation` or `test_zip_right_step_mpompo_accuracy` time out, rerun them alone) — expect exactly 364 passed, 69 failed on the unchanged tree. After your change the same 364 must still pass (compare the sets of failing test ids before/after, they must be identical).
+  * The installed pulser-core is 1.9.1 and the code base targets 1.8, so every test that constructs a backend end-to-end fails ALREADY before your change (Observable.__init__ needs `default_aggregation_method`). Baseline: from {wt} run `OMP_NUM_THREADS=2 MKL_NUM_THREADS=2 /venv/bin/python -m pytest -q -p no:cacheprovider --timeout=1800 --continue-on-collection-errors -n 3 -rf 2>&1 | tail -80` (10-25 minutes; the machine is shared, keep to -n 3 and the two *_NUM_THREADS=2 settings for every Python process you start; if `test_differentiation` or `test_zip_right_step_mpompo_accuracy` time out, rerun them alone) — the result on the unchanged tree is already known: exactly 364 passed, 69 failed, and the 69 failing test ids are listed in /tmp/baseline_failed_ids.txt (classname::name as in a junit xml) — you do NOT need to run the suite on the unchanged tree. After your change the same 364 must still pass: run the suite ONCE on the changed tree and compare the set of failing test ids with that file, they must be identical.
   * To demonstrate behaviour end-to-end anyway, a demonstration script may (i) monkey-patch `pulser.backend.observable.Observable.__init__` to supply `default_aggregation_method=AggregationMethod.SKIP` when missing, and (ii) bypass Pulser's sampling by building `emu_base.pulser_adapter.SequenceData` by hand (fields: omega, delta, phi as complex128 tensors of shape (steps, atoms); interaction_matrix = `_InteractionMatrixCallable(full, masked, slm_end_time)`; qubit_ids; bad_atoms; lindblad_ops; state_prep_error; target_times (len steps+1, ns); eigenstates; hamiltonian_type) and calling `MPSBackend._run_from_sequence_data(sd, config)` / `SVBackend._run_from_sequence_data(sd, config)`, or by calling lower-level functions directly. No GPU is available (use gpu=False / num_gpus_to_use=0).
 
-Deliverables, all under /tmp/seed_{pid}/ :
+Deliverables, all under {outdir}/ :
   1. patch.diff — `git -C {wt} diff` of your change (source files only).
   2. demo.py (or test_demo.py) — a small self-contained program that exits 0 / passes on the UNCHANGED tree and exits non-zero / fails on the changed tree, demonstrating the property violation (print what differs). It must locate the code through the current working directory (it will be run from the root of a worktree with and without the patch), e.g. start with `import sys, os; sys.path.insert(0, os.getcwd())`.
   3. meta.json — {{"property": "{p['id']}", "summary": "...what the change does...", "needs": "...what specific input/config/sequence/crash point is needed for it to manifest...", "files": [...], "ran": ["commands you ran and their outcomes, incl. the before/after pytest comparison"]}}
-Verify all of it yourself: run demo on the patched tree (fails) and on a clean tree (`git -C {wt} stash` ... `git -C {wt} stash pop`) (passes), and the full test comparison. Leave the worktree with your change applied. In your final answer, state the paths of the three files and a two-line description.""")
+Verify all of it yourself: run demo on the patched tree (fails) and on a clean tree (save your diff to a file, `git -C {wt} checkout -- .`, run, `git -C {wt} apply <file>`; never use `git stash`, it is shared between worktrees) (passes), and the full test comparison. Leave the worktree with your change applied. In your final answer, state the paths of the three files and a two-line description.""")
